@@ -2045,6 +2045,9 @@ def truncate_json_overflow(data):
     """
     if isinstance(data, collections.abc.Mapping):
         return {k: truncate_json_overflow(v) for k, v in data.items()}
+    elif isinstance(data, np.ndarray) and data.ndim == 0:
+        # 0-d arrays are Iterable by isinstance but cannot be iterated; handle the scalar they hold
+        return truncate_json_overflow(data[()])
     elif isinstance(data, collections.abc.Iterable) and not isinstance(data, str):
         # Handle lists, tuples, arrays, etc., but not strings
         return [truncate_json_overflow(item) for item in data]
